@@ -169,7 +169,8 @@ func Load(repo, trustedDir string, only map[string]bool) (*Loader, error) {
 			for _, e := range p.Errors {
 				msgs = append(msgs, e.Error())
 			}
-			return nil, fmt.Errorf("package %s does not type-check with its contracts:\n  %s", p.PkgPath, strings.Join(msgs, "\n  "))
+			// (the loader is returned too: its contract tables tell which clauses the errors belong to)
+			return l, fmt.Errorf("package %s does not type-check with its contracts:\n  %s", p.PkgPath, strings.Join(msgs, "\n  "))
 		}
 		if sp := prog.Package(p.Types); sp != nil {
 			sp.Build()
